@@ -21,7 +21,7 @@ Lemma gen_rsub children n : forall c, g_rsub children n c = rsub children n c.
 Proof. induction n as [|n IH]; intros c; simpl; auto. f_equal. f_equal. apply flat_map_ext. exact IH. Qed.
 
 Lemma gen_instances children fuel L r T : g_instances children fuel L r T = instances children fuel L r T.
-Proof. unfold g_instances, instances. now rewrite gen_rsub. Qed.
+Proof. unfold g_instances, instances, g_instances_raw, instances_raw. now rewrite gen_rsub. Qed.
 
 Lemma gen_ensure L r o i : g_ensure L r o i = ensure L r o i.
 Proof.
@@ -48,7 +48,10 @@ Lemma gen_eval children fuel L r T :
 Proof. unfold g_eval. now rewrite gen_instances. Qed.
 
 Lemma gen_pull_cur L seen cur : g_pull_cur L seen cur = pull_cur L seen cur.
-Proof. induction cur as [|w t IH]; simpl; auto; try (unfold g_deref, deref; now rewrite IH). Qed.
+Proof.
+  induction cur as [|w t IH]; simpl; auto;
+    try (unfold g_deref, deref; destruct (mem_obj (w_obj w) L); auto; now rewrite IH).
+Qed.
 
 Lemma gen_pull_classes L r seen cs : g_pull_classes L r seen cs = pull_classes L r seen cs.
 Proof. induction cs as [|c cs IH]; simpl; auto; try (now rewrite gen_pull_cur, IH). Qed.
